@@ -275,6 +275,8 @@ unsafe impl GlobalAlloc for Audit {
                         });
                     }
                     t.remove(i);
+                    // poison what a recorded object held: a later read through a stale pointer sees garbage, not the old value
+                    std::ptr::write_bytes(ptr, 0xDD, s.size.min(layout.size()));
                 }
                 None => {
                     if RECORDING.with(|r| r.get()) {
